@@ -605,6 +605,18 @@ func main() {
 			}
 		}
 	}
+	// four BYTES that are not four characters: multi-byte UTF-8 characters, raw bytes >= 0x80 (the opcode is the four
+	// bytes between the quotes, little-endian, whatever they spell)
+	for _, s := range []string{"\u00e9ab", "\u00fc\u00df", "\u20ac1", "caf\xe9", "\xff\xfe\x80\x81", "a\u00e9b"} {
+		bs := []byte(s)
+		if len(bs) != 4 {
+			panic("opcode literal " + s)
+		}
+		ops = append(ops, struct {
+			text string
+			val  uint32
+		}{"\"" + s + "\"", uint32(bs[0]) | uint32(bs[1])<<8 | uint32(bs[2])<<16 | uint32(bs[3])<<24})
+	}
 	for _, s := range []string{"1", "255", "0x1", "0xFFFFFFFF", "4294967295", "0x12345678", "305419896"} {
 		v, _ := new(big.Int).SetString(strings.TrimPrefix(s, "0x"), map[bool]int{true: 16, false: 10}[strings.HasPrefix(s, "0x")])
 		ops = append(ops, struct {
@@ -640,7 +652,7 @@ func main() {
 	run.Coverage["flag_expressions_in_range_checked"] = nFit
 	run.Coverage["flag_expressions_rechecked_with_minimal_parentheses"] = nMin
 	run.Coverage["distinct_nontrivial"] = outcomes.Distinct()
-	run.Coverage["rule"] = "state = one schema generated and type-checked (or one [flags] expression evaluated by ReadFile); consts: 14 types × decimal/hex/negative/min/max/float/inf/nan/string-escape/bool/guid forms × public/private naming; enums: 9 base types × boundary members; [flags]: every expression tree of depth ≤ 2 (thorough: 3, restricted square) over {1,2,3,0x0F,A,B,-1,N} and | & << >>, written fully parenthesised and again with only the parentheses C-family precedence (shift > & > |, left to right) requires, asserted when every intermediate value fits the base type; opcodes: 256 four-character strings + 7 integers × struct/message/union × public/private; values read with go/types (types.Const.Val())"
+	run.Coverage["rule"] = "state = one schema generated and type-checked (or one [flags] expression evaluated by ReadFile); consts: 14 types × decimal/hex/negative/min/max/float/inf/nan/string-escape/bool/guid forms × public/private naming; enums: 9 base types × boundary members; [flags]: every expression tree of depth ≤ 2 (thorough: 3, restricted square) over {1,2,3,0x0F,A,B,-1,N} and | & << >>, written fully parenthesised and again with only the parentheses C-family precedence (shift > & > |, left to right) requires, asserted when every intermediate value fits the base type; opcodes: 256 four-character strings + 6 four-byte strings with bytes >= 0x80 + 7 integers × struct/message/union × public/private; values read with go/types (types.Const.Val())"
 	run.Assume = []string{"expressions whose exact value (or an intermediate) leaves the base type are C13's business", "string escapes other than \\\" and \\\\ are not asserted (bebop and Go may differ legitimately)"}
 	run.Finish()
 }
